@@ -406,8 +406,13 @@ static void *call_rcu_thread(void *arg)
 		cmm_smp_mb();
 		uatomic_store(&crdp->futex, 0);
 	}
-	uatomic_or(&crdp->flags, URCU_CALL_RCU_STOPPED);
 	rcu_unregister_thread();
+	/*
+	 * Set the stopped flag only once unregistered: call_rcu_before_fork()
+	 * considers a stopped thread as quiescent as a paused one.
+	 */
+	cmm_smp_mb__before_uatomic_or();
+	uatomic_or(&crdp->flags, URCU_CALL_RCU_STOPPED);
 	return NULL;
 }
 
@@ -958,7 +963,12 @@ void call_rcu_before_fork(void)
 		wake_call_rcu_thread(crdp);
 	}
 	cds_list_for_each_entry(crdp, &call_rcu_data_list, list) {
-		while ((uatomic_load(&crdp->flags) & URCU_CALL_RCU_PAUSED) == 0)
+		/*
+		 * A thread stopped by a concurrent call_rcu_data_free(), which
+		 * is waiting for call_rcu_mutex to unlink it, never pauses.
+		 */
+		while ((uatomic_load(&crdp->flags) &
+				(URCU_CALL_RCU_PAUSED | URCU_CALL_RCU_STOPPED)) == 0)
 			(void) poll(NULL, 0, 1);
 	}
 }
